@@ -62,13 +62,13 @@ def main():
         'setup_cmd': 'cd lean && lake build bufrdrv BufrModel',
         'hooks': {
             'guard': 'PYBUFRKIT_VERIF',
-            'enable': 'no source hooks are needed; checks import pybufrkit from /repo\'s working tree (PYBUFRKIT_VERIF=1 is set by the harness but nothing in /repo reads it)',
+            'enable': 'no source hooks are needed; checks import pybufrkit from /repo\'s working tree (PYBUFRKIT_VERIF=1 is set by the harness but nothing in /repo reads it); the C13 check wraps __setattr__/__delattr__ of pybufrkit\'s descriptor, statement and table classes in its own process at run time (harness/c13heap.py), without any change to /repo',
             'baseline_off_cmd': 'cd /repo && /venv/bin/python -m pytest -ra -q -p no:cacheprovider --timeout=900 --continue-on-collection-errors',
             'source_commits': [],
             'add_only': True,
         },
         'engines': [{'name': 'lean-model', 'path': 'lean/', 'serves_properties': sorted(CHECKS),
-                     'kind_free_text': 'Lean 4 model + theorems (lake lib BufrModel), compiled JSON-lines driver bufrdrv, Python differential harness'}],
+                     'kind_free_text': 'Lean 4 model + theorems (lake lib BufrModel), definitions regenerated from /repo\'s Python source on every check (harness/py2lean*.py -> lean/BufrModel/Gen), compiled JSON-lines driver bufrdrv, Python differential harness'}],
         'checks': checks,
         'not_applicable': [{'property_id': p, 'reason': NOT_YET} for p in props if p not in CHECKS],
         'notes': 'Fix commits in /repo are listed in KNOWN_FINDINGS.json (status fixed).',
